@@ -26,7 +26,8 @@ Proof. repeat split; reflexivity. Qed.
    syncer; two processor objects over one database would make the facade read a flag nobody ever sets) *)
 Example src_one_processor_per_syncer :
   src_c14_processor_wiring = [("l1infotreesync/l1infotreesync.go New", 1%nat, true);
-                              ("bridgesync/bridgesync.go newBridgeSync", 1%nat, true)]%string.
+                              ("bridgesync/bridgesync.go newBridgeSync", 1%nat, true);
+                              ("lastgersync/lastgersync.go New", 1%nat, true)]%string.
 Proof. reflexivity. Qed.
 
 Example src_reorg_feeds_deleted_block_rows :
